@@ -3,11 +3,13 @@
     string stay extracted inductives.  No Extract Constant / Extract Inductive of our own. *)
 From Coq Require Import ZArith List Bool String.
 From Coq Require Extraction ExtrOcamlBasic.
-From Mx Require ModInt Expr Simp EvalAbs.
+From Mx Require ModInt Expr Simp EvalAbs X86Types X86Dis.
+From MxGen Require X86Tables.
 Extraction Language OCaml.
 Extraction "model.ml" ModInt.binop_apply ModInt.unop_apply ModInt.cmp_apply ModInt.in_rangeb
   BinInt.Z.add BinInt.Z.mul BinInt.Z.opp BinInt.Z.of_nat BinInt.Z.div BinInt.Z.modulo BinInt.Z.eqb BinInt.Z.ltb
   Expr.size Expr.eval Expr.expr_eqb Expr.hash Expr.copy Expr.visit Expr.replace_expr Expr.canonize
   Expr.get_r Expr.get_w Expr.get_expr_ids Expr.match_expr Expr.key_expr Expr.key_cmp
   Simp.simp Simp.simp1
-  EvalAbs.eval_expr EvalAbs.eval_instr EvalAbs.simpF EvalAbs.pool_set.
+  EvalAbs.eval_expr EvalAbs.eval_instr EvalAbs.simpF EvalAbs.pool_set
+  X86Dis.dis X86Tables.x86_tables.
